@@ -40,7 +40,7 @@ def run (abbr : List Nat) (jsx : Bool) (p : ConvParams) : String :=
     match parseTokens jsx toks with
     | .error e => showErr e
     | .ok roots =>
-      match convert roots p (4 * toks.length + 5000) with
+      match convert roots p (convFuel toks p) with
       | .error e => showErr e
       | .ok nodes => "ok " ++ " ".intercalate (nodes.map showNode)
 
